@@ -127,6 +127,23 @@ def run(ctx):
                 tail.append((sess.bell(), ("bell",)))
             msgs += tail
             ctx.count("sessions_with_cursor_under_updates")
+        if si % 11 == 5 and kind != "vmware":
+            # handshakes that end in a refusal or a failed authentication (reason of any length, also empty), followed by
+            # bytes the client must not interpret: the same under every chunking
+            fver = r.choice([(3, 3), (3, 7), (3, 8)])
+            reason = bytes(r.randrange(256) for _ in range(r.choice([0, 0, 1, 5, 40])))
+            k = r.random()
+            if fver == (3, 3):
+                body = [struct.pack("!I", 0), struct.pack("!I", len(reason)), reason] if k < .5 or "password" not in opts else \
+                       [struct.pack("!I", 2), bytes(16), struct.pack("!I", r.choice([1, 2]))]
+            elif k < .4:
+                body = [bytes([0]), struct.pack("!I", len(reason)), reason]
+            else:
+                body = [bytes([1, 1])] + ([struct.pack("!I", r.choice([1, 2])), struct.pack("!I", len(reason)), reason] if fver == (3, 8) else [])
+            parts = [b"RFB %03d.%03d\n" % fver] + [b_ for b_ in body if b_ is not None]
+            msgs = [(bytes(r.randrange(256) for _ in range(r.choice([0, 3, 20]))), ("garbage",))]
+            ver = fver
+            ctx.count("sessions_ending_in_refusal_or_auth_failure")
         pieces = parts + [m[0] for m in msgs]
         stream = b"".join(pieces)
         ctx.count("version_%d.%d" % ver)
